@@ -45,3 +45,104 @@ func StrEq(a, b string) bool      { return a == b }
 func BytesEq(a, b []byte) bool    { return string(a) == string(b) }
 func Note(s string)               {}
 func Label(l string, v interface{}) {}
+
+// ---- environment (ORM tables, bank, context). Symbolically these are models with an
+// arbitrary initial content; natively they are served by the module's replay support
+// through the Native hook.
+
+func OrmStore(name string) interface{}   { return native().Store(name) }
+func BankKeeper() interface{}            { return native().Bank() }
+func ModuleAddr(name string) []byte      { return native().ModuleAddr(name) }
+func IsModuleAccount(addr []byte) bool   { return native().IsModuleAccount(addr) }
+func OrmInvariant(table string, f interface{}) { native().Invariant(table, f) }
+func OrmBegin()                          { native().Begin() }
+func OrmRollbackIf(c bool)               { native().RollbackIf(c) }
+func OrmExists0(table string, keys ...interface{}) bool { return native().Exists(0, table, keys) }
+func OrmExists1(table string, keys ...interface{}) bool { return native().Exists(1, table, keys) }
+func OrmRow0(table string, dst interface{}, keys ...interface{}) bool {
+	return native().Row(0, table, dst, keys)
+}
+func OrmRow1(table string, dst interface{}, keys ...interface{}) bool {
+	return native().Row(1, table, dst, keys)
+}
+func OrmLookup0(table, index string, dst interface{}, vals ...interface{}) bool {
+	return native().Lookup(0, table, index, dst, vals)
+}
+func OrmLookup1(table, index string, dst interface{}, vals ...interface{}) bool {
+	return native().Lookup(1, table, index, dst, vals)
+}
+func OrmSeq0(table string) uint64                  { return native().Seq0(table) }
+func OrmWrites(table string) int                   { return native().Writes(table) }
+func SumDelta(table string, f interface{}) Q       { return native().Sum("delta", table, f) }
+func SumTouched0(table string, f interface{}) Q    { return native().Sum("touched0", table, f) }
+func AllWritten(table string, f interface{}) bool  { return native().All("written", table, f) }
+func AllTouched0(table string, f interface{}) bool { return native().All("touched0", table, f) }
+func BankBal0(addr []byte, denom string) Q         { return native().BankBal(0, addr, denom) }
+func BankBal1(addr []byte, denom string) Q         { return native().BankBal(1, addr, denom) }
+func BankSupply0(denom string) Q                   { return native().BankSupply(0, denom) }
+func BankSupply1(denom string) Q                   { return native().BankSupply(1, denom) }
+func BankCalls() int                               { return native().BankCalls() }
+func BankBlocked(addr []byte) bool                 { return native().BankBlocked(addr) }
+func EventCount() int                              { return native().EventCount() }
+func EventAt(i int, dst interface{}) bool          { return native().EventAt(i, dst) }
+func QIf(c bool, a, b Q) Q {
+	if c {
+		return a
+	}
+	return b
+}
+func BIf(c, a, b bool) bool {
+	if c {
+		return a
+	}
+	return b
+}
+func HasPrefixStr(s, p string) bool { return len(s) >= len(p) && s[:len(p)] == p }
+
+// NativeEnv is what a module's replay support provides.
+type NativeEnv interface {
+	Store(name string) interface{}
+	Bank() interface{}
+	Ctx() interface{}
+	ModuleAddr(name string) []byte
+	IsModuleAccount(addr []byte) bool
+	Invariant(table string, f interface{})
+	Begin()
+	RollbackIf(c bool)
+	Exists(when int, table string, keys []interface{}) bool
+	Row(when int, table string, dst interface{}, keys []interface{}) bool
+	Lookup(when int, table, index string, dst interface{}, vals []interface{}) bool
+	Seq0(table string) uint64
+	Writes(table string) int
+	Sum(kind, table string, f interface{}) Q
+	All(kind, table string, f interface{}) bool
+	BankBal(when int, addr []byte, denom string) Q
+	BankSupply(when int, denom string) Q
+	BankCalls() int
+	BankBlocked(addr []byte) bool
+	EventCount() int
+	EventAt(i int, dst interface{}) bool
+}
+
+// Native is installed by the module's replay support before a harness runs natively.
+var Native NativeEnv
+
+func native() NativeEnv {
+	if Native == nil {
+		panic("zzverif: native environment not installed (symbolic-only harness)")
+	}
+	return Native
+}
+
+// MkQ lets replay support build Q values.
+func MkQ(r *rat) Q { return Q{r} }
+
+// Rat exposes the rational behind a Q.
+func (q Q) Rat() *rat { return q.p }
+
+func SIf(c bool, a, b string) string {
+	if c {
+		return a
+	}
+	return b
+}
